@@ -515,6 +515,16 @@ class PricerBattery:
                     d2 = float(np.max(np.abs(np.asarray(shared.digital(K, T)) - np.asarray(COSPricer(m).digital(K, T)))))
                     if max(d1, d2) > 1e-10:
                         bad("reused-pricer-equals-fresh-pricer", {"model": name, "T": T, "max_call_difference": d1, "max_digital_difference": d2})
+            # one FFT pricer reused for two close maturities must give what fresh pricers give
+            ev += 1
+            mh = models["hem"]
+            shared = FFTPricer(mh)
+            K = np.linspace(85.0, 120.0, 8)
+            for T in (1.0, 1.004, 0.5):
+                dd = float(np.max(np.abs(np.asarray(shared.call(K, T)) - np.asarray(FFTPricer(mh).call(K, T)))))
+                dp = float(np.max(np.abs(np.asarray(shared.put(K, T)) - np.asarray(FFTPricer(mh).put(K, T)))))
+                if max(dd, dp) > 1e-10:
+                    bad("reused-pricer-equals-fresh-pricer", {"pricer": "FFT", "model": "hem", "T": T, "max_call_difference": dd, "max_put_difference": dp})
             # VG against its CGMY parametrisation
             from rpylib.model.utils import create_exponential_of_levy_model as mk
             from rpylib.model.levymodel.levymodel import ModelType
